@@ -20,7 +20,7 @@ Value(j) ==
 Check(e) ==
     LET l == Value(e.l)
         want == IF e.arity = 2 THEN (IF e.op \in {"max", "min"} THEN Compare(e.op, l, Value(e.r)) ELSE Apply(e.op, l, Value(e.r)))
-                ELSE Apply1(e.op, l, e.arg)
+                ELSE Apply1U(e.op, l, e.arg, e.sn, e.sd)
         got == Value(e.res)
     IN
     /\ IF want.kind = "X" /\ want.exc \in {"inexact", "unspecified"} THEN TRUE
